@@ -19,6 +19,9 @@ def main():
     import xsd2lean
     r5 = xsd2lean.generate(os.path.join(GEN, 'XsdPairs.lean'))     # also writes Gen/XsdClosed.lean
     print('generated:', {'XsdPairs': {k: r5[k] for k in list(r5)[:6] if not isinstance(r5[k], (list, dict))}})
+    import gen_cphd
+    r6 = gen_cphd.generate(os.path.join(GEN, 'CphdKernels.lean'))
+    print('generated:', {'CphdKernels': r6['unsupported']})
     for extra in ('tables_xml',):
         try:
             mod = __import__(extra)
